@@ -26,6 +26,7 @@ shared.exempt('cirq.ops.common_gates.ZPowGate', 'with_canonical_global_phase', '
 shared.exempt('cirq.ops.matrix_gates.MatrixGate', '__pow__', 'name', 'the name labels the original matrix; a power is a different matrix and is shown by its entries')
 shared.exempt('cirq.ops.matrix_gates.MatrixGate', '_phase_by_', 'name', 'same: the name labels the original matrix only')
 
+shared.exempt('cirq.ops.pauli_string_phasor.PauliStringPhasor', 'conjugated_by', 'qubits', 'explicit identity-padding qubits are not carried through conjugation; the new Pauli string defines the qubits and the unitary on the joint space is unchanged')
 PAULIS1 = {'I': np.eye(2, dtype=complex), 'X': c03.PX, 'Y': c03.PY, 'Z': c03.PZ}
 
 
